@@ -108,16 +108,21 @@ def d1(ctx, prog):
                 op = type(c.ops[0])
                 refuses_equal = (neg and op is ast.Lt) or (not neg and op is ast.GtE)
                 strict = (n, refuses_equal)
-            elif loop is not None and isinstance(loop.target, ast.Name) and isinstance(loop.iter, ast.Call) and norm(loop.iter.func) == 'range' and len(loop.iter.args) == 1:
-                # index loop: for i in range(len(E) - 1): a = E[i]; b = E[i + 1]; if not a < b: raise
+            elif loop is not None and isinstance(loop.target, ast.Name) and isinstance(loop.iter, ast.Call) and norm(loop.iter.func) == 'range' and len(loop.iter.args) in (1, 2):
+                # index loop: for i in range(lo, hi): a = E[i + c]; b = E[i + c + 1] with i + c running over 0 .. len(E) - 2; if not a < b: raise
                 iv = loop.target.id
-                bound = astutil.affine(loop.iter.args[0])
+                lo_ = astutil.affine(loop.iter.args[0]) if len(loop.iter.args) == 2 else {}
+                hi_ = astutil.affine(loop.iter.args[-1])
                 ldef = {s_.targets[0].id: s_.value for s_ in loop.body if isinstance(s_, ast.Assign) and len(s_.targets) == 1 and isinstance(s_.targets[0], ast.Name)}
                 ea, eb = ldef.get(c.left.id, c.left), ldef.get(c.comparators[0].id, c.comparators[0])
-                if isinstance(ea, ast.Subscript) and isinstance(eb, ast.Subscript) and norm(ea.value) == norm(eb.value) and bound == {f'len({norm(ea.value)})': 1, '': -1} \
-                        and astutil.affine(ea.slice) == {iv: 1} and astutil.affine(eb.slice) == {iv: 1, '': 1}:
-                    op = type(c.ops[0])
-                    strict = (n, (neg and op is ast.Lt) or (not neg and op is ast.GtE))
+                if isinstance(ea, ast.Subscript) and isinstance(eb, ast.Subscript) and norm(ea.value) == norm(eb.value) and lo_ is not None and hi_ is not None:
+                    sa_, sb_ = astutil.affine(ea.slice), astutil.affine(eb.slice)
+                    ln = f'len({norm(ea.value)})'
+                    if sa_ is not None and sb_ is not None and sa_.get(iv) == 1 and sb_.get(iv) == 1 and set(sa_) <= {iv, ''} and set(sb_) <= {iv, ''} \
+                            and sb_.get('', 0) - sa_.get('', 0) == 1 and set(lo_) <= {''} and lo_.get('', 0) + sa_.get('', 0) == 0 \
+                            and {k_: v_ for k_, v_ in hi_.items() if v_} == {k_: v_ for k_, v_ in {ln: 1, '': -1 - sa_.get('', 0)}.items() if v_}:
+                        op = type(c.ops[0])
+                        strict = (n, (neg and op is ast.Lt) or (not neg and op is ast.GtE))
     key = f'{setter.key}::increasing test'
     if strict is None:
         # vectorised forms: any(E[1:] <= E[:-1]) / not all(E[1:] > E[:-1])  (element comparison: right for every dtype), or the same
@@ -184,6 +189,35 @@ def d1(ctx, prog):
 
 
 def d2(ctx, prog, ci):
+    """the binning kernel.  When the kernel as a whole is decided by evaluation over the positions of a sample relative to the edges
+    (C13-D9 holds), the structural reading below (guard shapes, scaling formula spelling) is advisory: what it does not recognise
+    is another spelling of a kernel that bins every position correctly, and is recorded as a note.  Otherwise it decides."""
+    from .. import kernelvalues as _kv0, report as _rep
+    k0 = prog.resolve_method(ci, '_accumulate_core')
+    try:
+        by_value = k0 is not None and _kv0.check_mia(prog, k0, ctx.tier)[0] is None
+    except Exception:
+        by_value = False
+    if not by_value:
+        return _d2_structural(ctx, prog, ci)
+    scratch = _rep.Ctx(ctx.prop, ctx.tier, ctx.seed)
+    try:
+        _d2_structural(scratch, prog, ci)
+    except AnalysisError as e:
+        scratch.undecided('C13-D2', 'structure', str(e))
+    odd = [o for o in scratch.obs if o.status != _rep.HOLDS and o.construct.startswith(k0.key)]
+    for o in odd:
+        ctx.note(f'C13-D2 (advisory, kernel decided by evaluation): {o.construct}: {o.detail[:160]}')
+    for o in scratch.obs:
+        if o.status == _rep.HOLDS:
+            ctx.ok(o.rule, o.construct, o.detail, o.where, **o.facts)
+        elif not o.construct.startswith(k0.key):          # allocation / automatic edges: outside the kernel, decided structurally
+            (ctx.fail if o.status == _rep.VIOLATED else ctx.undecided)(o.rule, o.construct, o.detail, o.where, **o.facts)
+    ctx.ok('C13-D2', f'{k0.key}::bins by evaluation', 'the kernel bins every position relative to the edges correctly (C13-D9)' +
+           (f'; {len(odd)} structural reading(s) not recognised, kept as notes' if odd else ''), k0.where())
+
+
+def _d2_structural(ctx, prog, ci):
     k = prog.resolve_method(ci, '_accumulate_core')
     if k is None:
         raise AnalysisError('MIA kernel not found')
@@ -331,9 +365,33 @@ def d3(ctx, prog, ci):
                     key = f'{f.key}::{norm(n)[:80]}'
                     ctx.check(n.right.id in zero_free, 'C13-D3', key, f'denominator `{n.right.id}` is not zero-protected: an empty class/bin gives 0/0',
                               f'denominator `{n.right.id}` has its zeros replaced first', f.where(n))
+            def one_value(e):
+                # the replacement constant: 1, 1.0, dtype.type(1), np.float64(1) ...
+                if const_value(e) is not None:
+                    return const_value(e)
+                if isinstance(e, ast.Call) and len(e.args) == 1 and not e.keywords and const_value(e.args[0]) is not None and norm(e.func).split('.')[-1] in ('type', 'float64', 'float32', 'int64', 'uint32', 'float', 'int'):
+                    return const_value(e.args[0])
+                return None
+            # np.putmask(x, x == 0, c) / np.place(x, x == 0, c) / np.copyto(x, c, where=x == 0): the in-place forms of x[x == 0] = c
+            if isinstance(st, ast.Expr) and isinstance(st.value, ast.Call) and norm(st.value.func).split('.')[-1] in ('putmask', 'place', 'copyto'):
+                c_ = st.value
+                nm_ = norm(c_.func).split('.')[-1]
+                if nm_ in ('putmask', 'place') and len(c_.args) == 3 and isinstance(c_.args[0], ast.Name) and norm(c_.args[1]).replace(' ', '') == f'{c_.args[0].id}==0' \
+                        and one_value(c_.args[2]) not in (None, 0):
+                    zero_free.add(c_.args[0].id)
+                    repl[c_.args[0].id] = one_value(c_.args[2])
+                elif nm_ == 'copyto' and len(c_.args) == 2 and isinstance(c_.args[0], ast.Name) and one_value(c_.args[1]) not in (None, 0) \
+                        and any(k_.arg == 'where' and norm(k_.value).replace(' ', '') == f'{c_.args[0].id}==0' for k_ in c_.keywords):
+                    zero_free.add(c_.args[0].id)
+                    repl[c_.args[0].id] = one_value(c_.args[1])
             if isinstance(st, ast.Assign) and len(st.targets) == 1:
                 t = st.targets[0]
-                if isinstance(t, ast.Name):
+                v_ = st.value
+                if isinstance(t, ast.Name) and isinstance(v_, ast.Call) and norm(v_.func).split('.')[-1] == 'where' and len(v_.args) == 3 and isinstance(v_.args[2], ast.Name) \
+                        and norm(v_.args[0]).replace(' ', '') == f'{v_.args[2].id}==0' and one_value(v_.args[1]) not in (None, 0):
+                    zero_free.add(t.id)                   # y = np.where(x == 0, c, x): y is x with its zeros replaced
+                    repl[t.id] = one_value(v_.args[1])
+                elif isinstance(t, ast.Name):
                     zero_free.discard(t.id)
                 elif isinstance(t, ast.Subscript) and isinstance(t.value, ast.Name) and isinstance(t.slice, ast.Compare) \
                         and norm(t.slice).replace(' ', '') == f'{t.value.id}==0' and const_value(st.value) not in (None, 0):
